@@ -1,5 +1,6 @@
 mod c27;
 mod c28;
+mod c29;
 mod world;
 
 fn main() {
@@ -7,6 +8,7 @@ fn main() {
     match ctx.prop.as_str() {
         "C27" => c27::run(ctx),
         "C28" => c28::run(ctx),
+        "C29" => c29::run(ctx),
         p => mc_core::report::machinery_failure(&format!("mc-net2 does not serve {p} yet")),
     }
 }
